@@ -170,6 +170,23 @@ class SignalSetup(Contract):
                 if n.get('kind') == 'UnaryOperator' and n.get('opcode') in ('++', '--') and any((x.get('referencedDecl') or {}).get('name') == 'abort' or x.get('name') == 'abort' for x in _walk(n)):
                     stores.append((line_of(n), False))
         ob('request_never_cleared', all(ok_ for _, ok_ in stores), f'every store into Display::abort in main writes the constant true (stores at lines {[l for l, _ in stores]}, not constant-true: {[l for l, k_ in stores if not k_]})')
+        # ... and it is not CONSUMED before the simulation loop: between the installation and the loop nothing in main reads the
+        # flag (a read there can only serve to leave early -- an interrupt during set-up would then end the run without the final
+        # record and without "Aborted."); the loop condition and what follows the loop are the control skeleton's (MainLoop)
+        early_reads = []
+        for i_, s_ in enumerate(stmts[:loop_idx]):
+            stored_here = set()
+            for n in _walk(s_):
+                if n.get('kind') in ('BinaryOperator', 'CompoundAssignOperator') and n.get('opcode') == '=':
+                    lhs = n['inner'][0]
+                    while lhs.get('kind') in ('ParenExpr', 'ImplicitCastExpr'):
+                        lhs = lhs['inner'][0]
+                    stored_here.add(id(lhs))
+            for n in _walk(s_):
+                isflag = (n.get('kind') == 'MemberExpr' and n.get('name') == 'abort') or (n.get('kind') == 'DeclRefExpr' and (n.get('referencedDecl') or {}).get('name') == 'abort')
+                if isflag and id(n) not in stored_here:
+                    early_reads.append(line_of(n) or line_of(s_))
+        ob('request_not_consumed_before_the_loop', not early_reads, f'reads of Display::abort in main before the simulation loop: lines {early_reads}')
         ex.obls = obls + [Obligation('main#signal.canary', set(), [], z3.BoolVal(False), 'canary', None, '')]
         info = {'unit': 'main (signal installation)', 'file': self.tu, 'sha': tu.sha, 'cases': 1, 'lines': [line_of(stmts[sigint[0][0]]) if sigint else None] * 2,
                 'extract_s': 0, 'facts': {'installs': [list(map(str, t)) for t in installs], 'sa_flags': [str(v) for v in flag_stores], 'sa_handler': handler_stores}}
